@@ -561,7 +561,7 @@ C15_MODES = [
 def _c15_group(grp, base_cfg, steps, origin, sc0, tag=None):
     out = []
     ctrl = any(st.get("op") == "Chunk" and st.get("hex") in ("46", "53") for st in steps)
-    has_trigger = any(st.get("op") == "Trigger" for st in steps)
+    has_trigger = any(st.get("op") in ("Trigger", "HoldWriter") for st in steps)
     k = -1
     for m in C15_MODES:
         if m.get("hold") and has_trigger:
@@ -570,6 +570,8 @@ def _c15_group(grp, base_cfg, steps, origin, sc0, tag=None):
         j = k
         c = dict(base_cfg)
         c.update({x: y for x, y in m.items() if x != "hold"})
+        if origin == "obstacle" and c["mode"] == "async":
+            c["flush_ms"] = 0       # (no flusher thread: its Flush messages would be counted as steps of the writer thread)
         c["via"] = "flw"
         t = {"ctrl_chunk": ctrl}
         if tag:
@@ -683,6 +685,27 @@ def C15(tier, seed):
         n_model = len(scens)
         rng = random.Random(seed)
         scens += _rand_c15(rng, tier, len(scens) + 1, 1000000)
+        # records that fail while a directory occupies the path of the log file, then the obstacle goes away and logging
+        # goes on: the same records are lost under every write mode and nothing of them turns up later. In async mode the
+        # writer thread is stepped through the queued messages (the Flush message behind them marks that they are done)
+        grp0 = 2000000
+        for i in range(6 if tier == "quick" else 60):
+            rot = i % 2 == 1
+            base_cfg = {"naming": "Num", "rot": rot, "crlf": False, "append": True}
+            if rot:
+                base_cfg["size"] = rng.choice([30, 100])
+            obst = "app_rCURRENT.log" if rot else "app.log"
+            nlost = rng.choice([1, 2, 3])
+            steps = [{"op": "ExtCreate", "name": obst, "dir": True, "content": ""}, {"op": "Start", "append": True},
+                     {"op": "HoldWriter"}]
+            steps += [{"op": "Log", "len": rng.choice([9, 12, 40]), "q": "lost"} for _ in range(nlost)]
+            steps.append({"op": "Flush"})
+            steps += [{"op": "WStep"} for _ in range(nlost)]
+            steps += [{"op": "ExtRemove", "which": obst}, {"op": "WFree"}]
+            steps += [{"op": "Log", "len": rng.choice([9, 12, 40, 70])} for _ in range(rng.choice([2, 4, 7]))]
+            steps += [{"op": "Shutdown"}, {"op": "Stop", "shutdown": False}]
+            g = _c15_group(grp0 + i, base_cfg, steps, "obstacle", len(scens) + 1)
+            scens += g
         res = C.run_sharded(pid, "MonC15", scens, wd)
         C.log(f"[C15] {len(reps)} histories from TLC + random, x {len(C15_MODES)} write modes = {res['scenarios']} executions / "
               f"{res['events']} events; judged by MonC15.tla in {res['wall_s']}s; {len(res['bads'])} predicate failures; "
